@@ -9,8 +9,8 @@ def sh(cmd, cwd, timeout=900):
     return r.returncode, (r.stdout + r.stderr)
 
 def main(prop, mk):
-    src = "/tmp/mut/%s-out/%s" % (prop, mk)
-    sid = "%s-%s" % (prop, mk)
+    src = "%s/%s-out/%s" % (os.environ.get("MUT_DIR", "/tmp/mut"), prop, mk)
+    sid = "%s-%s%s" % (prop, os.environ.get("SEED_TAG", ""), mk)
     wt = "/tmp/seedchk/" + sid
     shutil.rmtree(wt, ignore_errors=True)
     os.makedirs("/tmp/seedchk", exist_ok=True)
